@@ -10,7 +10,7 @@
    on such a (non-reachable) record at the end of the file and proved
      - under the two key-discipline clauses of [Inv] (real keys in s_vehicles / listings, dummy keys in s_dummies),
      - hence for every reachable schedule. *)
-From RS Require Import Base BaseFacts Network NetSpec Tour TourSpec TourFacts TourValidFacts Transition Schedule SchedInv
+From RS Require Import SchedPeel Base BaseFacts Network NetSpec Tour TourSpec TourFacts TourValidFacts Transition Schedule SchedInv
   SchedCostsFacts SchedUnservedFacts SchedListFacts SchedToursFacts SchedFrameStmts.
 Local Open Scope Z_scope.
 
@@ -145,7 +145,7 @@ Lemma update_tours_frame s veh tours forms usage dummies ids dids uns costs p nt
   forall k, k <> p -> k <> r ->
     vget k tours2 = vget k tours /\ vget k dummies2 = vget k dummies /\ vget k veh1 = vget k veh.
 Proof.
-  intros H k Hp Hr. unfold update_tours in H.
+  intros H k Hp Hr. apply update_tours_peel in H. unfold update_tours_prefix in H.
   monp H. mon H. monp H. mon H. monp H. inversion H; subst; clear H.
   destruct (utc_frame _ _ _ _ _ _ _ _ _ E1 k Hr) as [A B]. rewrite A, B. clear A B E1.
   apply vid_neq_eqb in Hp.
